@@ -311,3 +311,9 @@ _harmonics(4, 4, "quick")
 _harmonics(6, 6, "thorough")
 _harmonics(8, 8, "thorough")
 _harmonics(10, 10, "thorough")
+
+
+# the SRP obligation above takes the visible fraction "by contract": that contract is re-checked in this property's own run
+from pyvc.harness import share as _share  # noqa: E402
+from contracts import C14 as _C14  # noqa: E402,F401
+_share("C14", "sunfrac", "C13")
